@@ -14,6 +14,7 @@ use std::panic::{AssertUnwindSafe, catch_unwind};
 
 use rustc_ast::token::{Delimiter, Token, TokenKind};
 use rustc_ast::tokenstream::{TokenStream, TokenStreamIter, TokenTree};
+use rustc_ast::util::parser::ExprPrecedence;
 use rustc_ast::{ast, ptr};
 use rustc_ast_pretty::pprust;
 use rustc_span::{BytePos, DUMMY_SP, Ident, Span, Symbol};
@@ -1150,10 +1151,21 @@ pub(crate) fn convert_try_mac(
     let path = &pprust::path_to_string(&mac.path);
     if path == "try" || path == "r#try" {
         let ts = mac.args.tokens.clone();
+        let mut expr = parse_expr(context, ts)?;
+        // `try!(a + b)` is `(a + b)?`, not `a + b?`.
+        if expr.precedence() < ExprPrecedence::Unambiguous {
+            expr = ptr::P(ast::Expr {
+                id: ast::NodeId::root(), // dummy value
+                kind: ast::ExprKind::Paren(expr),
+                span: mac.args.dspan.entire(),
+                attrs: ast::AttrVec::new(),
+                tokens: None,
+            });
+        }
 
         Some(ast::Expr {
             id: ast::NodeId::root(), // dummy value
-            kind: ast::ExprKind::Try(parse_expr(context, ts)?),
+            kind: ast::ExprKind::Try(expr),
             span: mac.span(), // incorrect span, but shouldn't matter too much
             attrs: ast::AttrVec::new(),
             tokens: None,
